@@ -16,7 +16,7 @@ if ! (cd "$S" && go build ./... 2>"$S/.build.err"); then echo "SEEDCHECK: does n
 mkdir -p "$S/.out"
 n=0
 for P in $PROPS; do
-  ( "${I2PCHECK_BIN:-$HERE/bin/i2pcheck}" -repo "$S" -verif "$HERE" -prop "$P" -evidence "$S/.out/$P.json" > "$S/.out/$P.txt" 2>&1; echo $? > "$S/.out/$P.rc" ) &
+  ( timeout 1500 "${I2PCHECK_BIN:-$HERE/bin/i2pcheck}" -repo "$S" -verif "$HERE" -prop "$P" -evidence "$S/.out/$P.json" > "$S/.out/$P.txt" 2>&1; echo $? > "$S/.out/$P.rc" ) &
   n=$((n+1))
   if [ $((n % 8)) -eq 0 ]; then wait; fi
 done
